@@ -370,6 +370,40 @@ func (c *checker) soupStream(r *rng.R, n int) {
 	}
 }
 
+// ---- deep nesting: runs of openers, closed or not (the model parser's fuel must cover them) ----
+
+func (c *checker) nestingStream(r *rng.R, n int) {
+	for i := 0; i < n; i++ {
+		k := 1 + r.Intn(70)
+		var doc string
+		switch r.Intn(5) {
+		case 0:
+			doc = "const i32 x = " + strings.Repeat("[", k)
+			if r.Bool() {
+				doc += "1" + strings.Repeat("]", r.Intn(k+2))
+			}
+		case 1:
+			doc = "const i32 x = " + strings.Repeat("{1:", k)
+			if r.Bool() {
+				doc += "2" + strings.Repeat("}", r.Intn(k+2))
+			}
+		case 2:
+			doc = "typedef " + strings.Repeat("list<", k)
+			if r.Bool() {
+				doc += "i32" + strings.Repeat(">", r.Intn(k+2)) + " T"
+			}
+		case 3:
+			doc = "typedef " + strings.Repeat("map<i8,", k)
+			if r.Bool() {
+				doc += "i32" + strings.Repeat(">", r.Intn(k+2)) + " T"
+			}
+		default:
+			doc = "struct S { 1: i32 f = " + strings.Repeat("[{", k/2+1) + strings.Repeat("(", r.Intn(3))
+		}
+		c.checkAny([]byte(doc), "deep-nesting")
+	}
+}
+
 func runStreams(c *checker, r *rng.R) {
 	nValid, nBig, nD18, nMut, nRand, nSoup, nLit, nDoc, nNum := 6000, 200, 1200, 12000, 4000, 8000, 12000, 12000, 6000
 	if *tier == "thorough" {
@@ -408,6 +442,7 @@ func runStreams(c *checker, r *rng.R) {
 		c.checkAny(randomBytes(r), "random-bytes")
 	}
 	c.soupStream(r, nSoup)
+	c.nestingStream(r, nSoup/20)
 	c.literalStream(r, nLit)
 	c.docStream(r, nDoc)
 	c.numberStream(r, nNum)
@@ -416,6 +451,6 @@ func runStreams(c *checker, r *rng.R) {
 		"decimal/signed/hex integers, doubles with fraction/exponent, docstring shapes attached and detached, annotations everywhere), " +
 		"compared with the printer's tree and true positions; a second rendering that allows a newline directly after a keyword (D18 probe); " +
 		"token-level mutations of rendered documents (delete/duplicate/swap/replace/insert from a vocabulary of tokens and malformed tokens, truncation, byte edits); " +
-		"random bytes; token soup (vocabulary pieces, reserved words and identifier-like characters glued together); pattern-conformant random literals; docstring-like byte strings with Unicode spaces; numeric token strings. " +
+		"random bytes; token soup (vocabulary pieces, reserved words and identifier-like characters glued together); runs of up to 70 nested openers ([ {1: list< map<i8,) closed or not; pattern-conformant random literals; docstring-like byte strings with Unicode spaces; numeric token strings. " +
 		"non-trivial = non-empty input; distinct by input bytes"
 }
